@@ -66,6 +66,8 @@ class Glue:
             return ("abstract", o)
         if self.len_re.match(o):
             return st["len"]
+        if re.match(r"^\(\(\*_2\)\.2: usize\)$", o) and "src_len" in st["flags"]:
+            return st["flags"]["src_len"]
         m = re.match(r"^\((_\d+)\.(\d+): [^)]*\)$", o)
         if m and (m.group(1) + "." + m.group(2)) in st["env"]:
             return st["env"][m.group(1) + "." + m.group(2)]
@@ -264,7 +266,21 @@ def c_get_unchecked_bit(g, st, pc, dst, args):
     st["env"][dst] = st["flags"]["has_component"]
 
 
+def c_archetypes_clone_from(g, st, pc, dst, args):
+    # NOT established by a Kani harness (table-level clone does not fit, DESIGN.md §5): stated contract
+    # "the destination ends up with exactly the source's rows"; only the archetype-level half is checked
+    st["rows"] = st["flags"]["src_len"]
+    st["env"][dst] = ("abstract", "identifier map")
+
+
+def c_allocator_clone_from(g, st, pc, dst, args):  # allocc_: slots, liveness and free list copied
+    st["active"] = st["flags"]["src_len"]
+
+
 WORLD_CONTRACTS = [
+    (r"Archetypes::<\w+>::clone_from$", c_archetypes_clone_from),
+    (r"allocator::Allocator::<\w+>::clone_from$", c_allocator_clone_from),
+    (r"as core::clone::Clone>::clone_from$", c_pure("()")),
     (r"allocator::Allocator::<\w+>::get$", c_get),
     (r"Archetypes::<\w+>::get_unchecked_mut$", c_pure("archetype")),
     (r"Archetype::<\w+>::remove_row_unchecked$", c_remove_row),
@@ -344,7 +360,7 @@ def check_fn(mir, title, pattern, len_re, contracts, flags, post_len, results, s
 def main():
     repo = sys.argv[1] if len(sys.argv) > 1 else "/repo"
     res = {"engine": "E3c-glue", "obligations": 0, "discharged": 0, "violations": [], "inconclusive": [], "samples": [],
-           "functions": ["World::insert", "World::extend", "World::remove", "World::clear", "Entry::add", "Entry::remove"],
+           "functions": ["World::insert", "World::extend", "World::remove", "World::clear", "World::clone_from", "Entry::add", "Entry::remove"],
            "bounds": "64-bit counters, arbitrary values; relative to the callee contracts (each established by a Kani harness group)",
            "cross_checked": "z3 and cvc5 agree on every obligation"}
     t0 = time.time()
@@ -367,6 +383,10 @@ def main():
                  {"live": live, "k": k, "pre": room(n0) + [z3.Implies(live, z3.UGE(n0, 1))]}, lambda n, f: n - z3.If(live, z3.BitVecVal(1, 64), z3.BitVecVal(0, 64)), results, res["samples"])
         check_fn(mir, "World::clear", r"^fn world::<impl at src/world/mod\.rs[^>]*>::clear\(", WLEN, WORLD_CONTRACTS,
                  {"live": live, "k": k, "pre": room(n0)}, lambda n, f: z3.BitVecVal(0, 64), results, res["samples"])
+        # clone_from: the destination takes the source's count (source satisfies rows == active == len)
+        m0 = BV("src_len0")
+        check_fn(mir, "World::clone_from", r"^fn world::impl_clone::<impl at src/world/impl_clone\.rs[^>]*>::clone_from\(", WLEN, WORLD_CONTRACTS,
+                 {"live": live, "k": k, "src_len": m0, "pre": room(n0) + room(m0)}, lambda n, f: m0, results, res["samples"])
         # Entry: `len` is not touched at all; rows and active must come out unchanged.  An Entry exists only
         # for a stored entity, hence rows >= 1.
         ELEN = r"^\(\(\*\(\(\*_1\)\.0: &mut World<[^)]*\)\)\.2: usize\)$"
